@@ -241,6 +241,17 @@ pub fn scratch_root() -> PathBuf {
     } else {
         std::env::temp_dir()
     };
+    // remove scratch directories of harness processes that no longer exist (killed runs)
+    if let Ok(rd) = std::fs::read_dir(&base) {
+        for e in rd.flatten() {
+            let name = e.file_name().to_string_lossy().to_string();
+            if let Some(pid) = name.strip_prefix("itv-").and_then(|s| s.parse::<u32>().ok()) {
+                if !Path::new(&format!("/proc/{pid}")).exists() {
+                    let _ = std::fs::remove_dir_all(e.path());
+                }
+            }
+        }
+    }
     let p = base.join(format!("itv-{}", std::process::id()));
     let _ = std::fs::remove_dir_all(&p);
     std::fs::create_dir_all(&p).expect("create scratch root");
